@@ -56,7 +56,9 @@ def bool_faults():
     ]
 
 
-POSITIONS = ["assign-rhs", "compound-rhs", "call-arg", "if-cond", "elif-cond", "for-cond", "for-init", "for-step", "return", "conc-child", "map-key-assign", "nested-if-in-for"]
+POSITIONS = ["assign-rhs", "compound-rhs", "call-arg", "if-cond", "elif-cond", "for-cond", "for-init", "for-step", "return", "conc-child", "map-key-assign", "nested-if-in-for",
+             "method-arg", "three-level-arg", "conc-call-arg", "conc-method-arg", "conc-three-level-arg"]
+NEEDS_H = ("method-arg", "three-level-arg", "conc-method-arg", "conc-three-level-arg")
 
 
 def place(pos, nf, bf):
@@ -97,6 +99,16 @@ def place(pos, nf, bf):
         if as_n is None:
             return None
         return block([loc, sconc([("asg", assign(("var", "cx"), "=", ("math", as_n))), ("asg", assign(("var", "cy"), "=", ("math", mint(1))))]), fresh(2)])
+    if pos in ("method-arg", "three-level-arg", "conc-call-arg", "conc-method-arg", "conc-three-level-arg"):
+        # the fault is evaluated as an ARGUMENT of a call statement; inside a conc block the call runs on its own goroutine,
+        # which the rule-level recover does not reach
+        arg = as_arg(emath(as_n)) if as_n is not None else as_arg(as_b)
+        c = {"method-arg": call("method", "h.Id64", [arg]), "conc-method-arg": call("method", "h.Id64", [arg]),
+             "three-level-arg": call("three", "h.PSub.GetN", [arg]), "conc-three-level-arg": call("three", "h.PSub.GetN", [arg]),
+             "conc-call-arg": call("func", "IdI64", [arg])}[pos]
+        if pos.startswith("conc-"):
+            return block([loc, sconc([("asg", assign(("var", "cy"), "=", ("math", mint(1)))), ("call", c)]), fresh(2)])
+        return block([loc, scall(c), fresh(2)])
     if pos == "map-key-assign":
         if as_n is None:
             return None
@@ -117,14 +129,15 @@ def make_cases(rng, tier):
             if body is None:
                 continue
             names = {d["name"] for d in inj}
-            c = make_case(cid, body, [d for d in base if d["name"] not in names] + inj)
+            hx = [inj_struct("h")] if pos in NEEDS_H and "h" not in names else []
+            c = make_case(cid, body, [d for d in base if d["name"] not in names] + hx + inj)
             c["fault"], c["position"] = name, pos
             cases.append(c); cid += 1
         for (name, mkf, inj) in bool_faults():
             body = place(pos, None, mkf())
             if body is None:
                 continue
-            c = make_case(cid, body, base + inj)
+            c = make_case(cid, body, base + ([inj_struct("h")] if pos in NEEDS_H else []) + inj)
             c["fault"], c["position"] = name, pos
             cases.append(c); cid += 1
     # other fault shapes: forRange operands, unbounded loops, break/continue outside loops
@@ -227,6 +240,8 @@ def main(run):
                        "C09: skeleton of %s changed and no failing input was found" % e, no_input=True)
     if not ok and not run.violations:
         run.report({"kind": "proof", "theorem": PID}, {"theorem": "Props/C09.v", "log": log[-3000:]}, "C09: the Coq development no longer builds and no failing input was found", no_input=True)
+    if ok:
+        interp_facts_report(run, PID, bool(run.violations))
     cov = run.coverage
     cov["discharged"] += (0 if mism else 1) + (0 if diff or not ok else 1) + (0 if spec_bad else 1)
     classes = {}
